@@ -12,6 +12,10 @@ def totalSatProject (m u : Rat) : Rat := (m * u)
 
 def budgetOverSat (b u : Rat) : Rat := (b / u)
 
+def cacheLookupKey (proj budget : Rat) : Rat × Rat := (proj, budget)
+
+def cacheStoreKey (proj budget : Rat) : Rat × Rat := (proj, budget)
+
 def initialAffordability (cost totalSat : Rat) : Rat := (cost / totalSat)
 
 def isSupporter (u : Rat) : Bool := (decide (u > (0 : Rat)))
